@@ -75,7 +75,8 @@ impl Du {
             v: f,
             d,
             m: f1.abs() * self.m + f.abs(),
-            md: f1.abs() * self.md + f2.abs() * self.m * self.d.abs() + d.abs(),
+            // (no tangent, no second-order term: f2 may overflow where the value is perfectly fine)
+            md: f1.abs() * self.md + if self.d != 0.0 { f2.abs() * self.m * self.d.abs() } else { 0.0 } + d.abs(),
             ex: self.ex && exact,
             amb: self.amb,
         }
